@@ -102,11 +102,21 @@ def run(db, res, tier):
   upd_fwd = {lc.name for lc in db.trace_launch_ctxs("solver.solve") if lc.name.startswith("solver._update_constraint")}
   n += 1
   res.ob(bool(upd_inv) and upd_inv <= upd_fwd, "constraint-update|shared", Finding("R-SEQ.3", "inverse.inv_constraint|constraint-update|different-kernels", f"inverse evaluates constraint forces with {sorted(upd_inv - upd_fwd) or 'no constraint-update kernel'}, which the forward solver does not use", "mujoco_warp/_src/inverse.py"))
+  # (4b) the discrete-time correction of inverse (INVDISCRETE, Euler) undoes forward's implicit joint damping: the two
+  # sibling launches must be gated by the same flags, in both directions
+  from ..rules import r_flags
+
+  sib = [("inverse._qfrc_eulerdamp", "forward._euler_damp_qfrc"), ("forward._euler_damp_qfrc", "inverse._qfrc_eulerdamp")]
+  ng = r_flags.check_sibling_gating(
+    res, db, ["forward.euler", "inverse.inverse"], sib, ["EULERDAMP", "DAMPER"], rule="R-FLAGS.5",
+    why="with {setbits} disabled no launch of {fk} is reachable but its forward/inverse sibling {dk} is still launched: the Euler step and the discrete-time inverse (INVDISCRETE) disagree on whether joint damping is integrated implicitly, so inverse(forward) is no longer the identity",
+  )
+  res.floor("euler-damping sibling gating obligations", ng, 2)
   # (5) INVDISCRETE: qacc is restored
   npair = r_pair.check_pairs(res, db, "inverse.inverse", {"Data.qacc"}, require_recompute=False)
   res.floor("qacc save/restore pair (INVDISCRETE)", npair, 1)
   res.floor("forward/inverse agreement obligations", n, 12)
-  res.rule_text = "R-SIGN.9: every force field that occurs in both forward's qfrc_smooth sum and inverse's qfrc_inverse sum has opposite unit coefficients, qfrc_constraint enters qfrc_inverse with -1, the single remaining +1 term is the buffer support.mul_m filled from Data.qacc before the sum, no input force (applied/actuator) is consumed, every non-input term of qfrc_smooth is present; R-SEQ.3: inverse() runs fwd_position, fwd_velocity, inv_constraint, rne in this order and its constraint forces come from constraint-update kernels the forward solver also uses; R-PAIR: with INVDISCRETE the discrete-time qacc is restored on every path"
+  res.rule_text = "R-SIGN.9: every force field that occurs in both forward's qfrc_smooth sum and inverse's qfrc_inverse sum has opposite unit coefficients, qfrc_constraint enters qfrc_inverse with -1, the single remaining +1 term is the buffer support.mul_m filled from Data.qacc before the sum, no input force (applied/actuator) is consumed, every non-input term of qfrc_smooth is present; R-SEQ.3: inverse() runs fwd_position, fwd_velocity, inv_constraint, rne in this order and its constraint forces come from constraint-update kernels the forward solver also uses; R-FLAGS.5: forward's implicit Euler damping and the inverse's discrete-time damping correction are switched off by the same flag assignments (both directions); R-PAIR: with INVDISCRETE the discrete-time qacc is restored on every path"
   res.explanation = "Structural necessary conditions of forward/inverse consistency: the two sides of the equation of motion are assembled from the same fields with consistent signs on the outputs of the same stages. Not decided: equality up to solver residual (numeric), the discrete-time correction of discrete_acc."
   res.extra["analysed"] = {"qfrc_smooth_terms": f_terms, "qfrc_inverse_terms": i_terms, "inverse_stage_calls": [c for c in inv_calls if c.count(".") == 1][:14]}
   res.assumptions += ["xfrc_applied enters forward dynamics through qfrc_smooth's later accumulation and is part of what inverse returns"]
